@@ -417,6 +417,9 @@ func (p *streamPool) getOrOpenStream() (*Stream, error) {
 				return stream, nil
 			}
 		}
+		// the stream or its session was closed while the stream was idle in the pool. It must still be closed
+		// locally, otherwise it stays registered in its session (and keeps its buffers) for ever.
+		stream.Close()
 	}
 
 	stream, err := p.Session().OpenStream()
